@@ -700,7 +700,7 @@ def main():
                ('a b', lambda n: 'a b ' * (n // 4)), ('{0[', lambda n: '{0' + '[a]' * (n // 3)), ('%(', lambda n: '%(' * (n // 2)), ('n+', lambda n: 'n+' * min(n // 2, 150) + 'n' + ' ' * n)]
     generic = [('(', lambda n: '(' * n), ('(x)', lambda n: 'a@b.c (' + '(x)' * (n // 3))] + generic
     if not chk.thorough:
-        generic = generic[:4] + rng.sample(generic[4:], 2)
+        generic = generic[:3] + rng.sample(generic[3:], 1)
     sizes = (4000, 64000) if chk.thorough else (2000, 16000)
     sweep = []
     swdeps = {}
